@@ -15,6 +15,7 @@ RULE = ("random Cartesian triples away from the singular sets (rho>0.1, polar an
         "(random polynomial x trig in all three coordinates) take the same value at the same physical point after rebase in "
         "both directions; refusals: cylindrical<->spherical rebase (vectors, fields), points of another kind. non-trivial = "
         "vector not on a coordinate axis / field depends on >=2 coordinates; distinct = distinct case.")
+RULE = RULE + ' Also: cylindrical / spherical vectors with one and two components: dot and magnitude in the system equal those after re-expression in Cartesian coordinates.'
 ASSUMPTIONS = ["vf/geom_ref.py transforms (from the definitions; spherical = (r, azimuth, polar) in this core)"]
 N = {"quick": dict(vectors=320, fields=64), "thorough": dict(vectors=4800, fields=640)}
 MIN_REACH = {"quick": {"rebase_to_cyl": 250, "rebase_to_sph": 250, "roundtrip": 500, "dot_magnitude": 500, "scale": 400,
